@@ -45,7 +45,11 @@ Inductive case :=
 | CText (d : dialect) (fl : flags) (o : opts) (q : nearsql) (obs : string)
 | CMerge (fl : flags) (q_off : nearsql) (q_on : option nearsql)
 | CSound (fl : flags) (q : nearsql)           (* does the decidable sufficient condition for cache_sound hold on this real graph? *)
-| CSoundJ (fl : flags) (q : nearsql).         (* ... when pairs of sub-queries that both contain a join are not asked? *)
+| CSoundJ (fl : flags) (q : nearsql)
+(* one real ExtendNode through the real extend_to_near_sql (merges off): the declared_term_dependencies of the step it builds
+   must be SqlMerge.declared_deps of the node's demanded columns, assignments (with the columns each expression mentions),
+   partition_by and order_by -- same keys in the same order, the same SET of columns for each key *)
+| CDeps (demand : list string) (subops : list (string * list string)) (partition order : list string) (obs : depmap).         (* ... when pairs of sub-queries that both contain a join are not asked? *)
 
 Definition case_ok (c : case) : bool :=
   match c with
@@ -62,6 +66,8 @@ Definition case_ok (c : case) : bool :=
       end
   | CSound fl q => cache_sound_dec fl q
   | CSoundJ fl q => cache_sound_dec_but_joins fl q
+  | CDeps demand subops partition order obs =>
+      leqb (fun a b => seqb (fst a) (fst b) && set_eqb (snd a) (snd b)) (declared_deps demand subops partition order) obs
   end.
 
 Definition check_cases (cs : list case) : list nat := failing_idx case_ok cs.
